@@ -340,6 +340,7 @@ Section Reads.
 Variable c : config RN.
 Variable k : nat.
 Hypothesis Hsyn : delay_truthy RN c = true -> (Z.of_nat k < sz_syn RN c)%Z.
+Hypothesis Hoff : c_off RN c = None.
 Local Notation kf := (keff c k).
 Local Notation oP := (obsP c k).
 
@@ -353,12 +354,12 @@ Proof.
 Qed.
 
 (* x_pre / x_a: view(selector) in the delayed mode, peek otherwise *)
-Lemma read_trace m d a sz r :
+Lemma read_trace m d a tc sz r :
   (del_fwd RN c = true -> (Z.of_nat k < sz)%Z) ->
-  (if del_fwd RN c then rd 0 sz (tvals m d a (oP r)) k else hd 0 (tvals m d a (oP r)))
+  (if del_fwd RN c then view RN (c_off RN c) (c_dt RN c) tc sz (tvals m d a (oP r)) k else hd 0 (tvals m d a (oP r)))
   = V m d a (skipn kf r).
 Proof.
-  intros Hsz. unfold obsP, keff. destruct (del_fwd RN c) eqn:Ef.
+  intros Hsz. unfold view. rewrite Hoff. unfold obsP, keff. destruct (del_fwd RN c) eqn:Ef.
   - destruct (del_fwd_true Ef) as [-> ->]. rewrite rd_small by (apply Hsz; reflexivity). apply nth_tvals.
   - destruct (del_reg RN c) eqn:Er.
     + rewrite (del_reg_not_fwd Er Ef). reflexivity.
@@ -376,12 +377,12 @@ Proof.
     + destruct r as [|x r]; [destruct (if delay_truthy RN c then k else 0%nat); reflexivity|reflexivity].
 Qed.
 (* x_b: the slow presynaptic trace one step earlier (select(offset=2) / read(2)) *)
-Lemma read_slow m d a sz r :
+Lemma read_slow m d a tc sz r :
   (del_fwd RN c = true -> (Z.of_nat (k + 1) < sz)%Z) -> (1 < sz)%Z ->
-  (if del_fwd RN c then rd 0 sz (tvals m d a (oP r)) (k + 1) else rd 0 sz (tvals m d a (oP r)) 1)
+  (if del_fwd RN c then view RN (c_off RN c) (c_dt RN c) tc sz (tvals m d a (oP r)) (k + 1) else rd 0 sz (tvals m d a (oP r)) 1)
   = V m d a (skipn 1 (skipn kf r)).
 Proof.
-  intros Hsz H1. unfold obsP, keff. destruct (del_fwd RN c) eqn:Ef.
+  intros Hsz H1. unfold view. rewrite Hoff. unfold obsP, keff. destruct (del_fwd RN c) eqn:Ef.
   - destruct (del_fwd_true Ef) as [-> ->]. rewrite rd_small by (apply Hsz; reflexivity).
     rewrite nth_tvals, skipn_plus1. reflexivity.
   - rewrite rd_small by exact H1. rewrite nth_tvals. destruct (del_reg RN c) eqn:Er.
@@ -413,6 +414,7 @@ Variable c : config RN.
 Variable k : nat.
 Hypothesis Hsyn : delay_truthy RN c = true -> (Z.of_nat k < sz_syn RN c)%Z.
 Hypothesis Hpre : del_fwd RN c = true -> (Z.of_nat k < sz_tr_pre RN c)%Z /\ (Z.of_nat k < sz_spike_pre RN c)%Z.
+Hypothesis Hoff : c_off RN c = None.
 Local Notation kf := (keff c k).
 Local Notation dt := (c_dt RN c).
 Local Notation m := (c_mode RN c).
@@ -483,7 +485,7 @@ Proof.
   intros Ht h.
   unfold partials. destruct Ht as [E | [E | E]]; rewrite E; cbv zeta;
   rewrite st_tr_pre, st_tr_post, st_spike_pre, st_spike_post by exact Hsyn;
-  rewrite (read_trace c k) by (intros E'; apply Hpre; exact E');
+  rewrite (read_trace c k Hoff) by (intros E'; apply Hpre; exact E');
   rewrite (read_spike c k) by (intros E'; apply Hpre; exact E');
   rewrite !map_rev;
   change (hd (zero RN) (tvals (mo c) (d_post c) (amp_post RN c) (rev (map snd h))))
@@ -541,6 +543,7 @@ Variable c : config RN.
 Variable k : nat.
 Hypothesis Hsyn : delay_truthy RN c = true -> (Z.of_nat k < sz_syn RN c)%Z.
 Hypothesis Hpre : del_fwd RN c = true -> (Z.of_nat k < sz_tr_pre RN c)%Z /\ (Z.of_nat k < sz_spike_pre RN c)%Z.
+Hypothesis Hoff : c_off RN c = None.
 Local Notation dt := (c_dt RN c).
 Local Notation m := (c_mode RN c).
 
@@ -584,7 +587,7 @@ Proof.
   rewrite app_length. cbn [length]. rewrite Nat.add_1_r. cbn [sum_steps].
   rewrite (sum_steps_ext _ (contrib c k (h ++ [pq])) (contrib c k h)) by (intros; apply contrib_prefix; assumption).
   rewrite (map_app fst), map_map. cbn [map fst]. rewrite map_id.
-  rewrite net_forward_none, (partials_stdp c k Hsyn Hpre h pq Ht'). cbn [fst snd].
+  rewrite net_forward_none, (partials_stdp c k Hsyn Hpre Hoff h pq Ht'). cbn [fst snd].
   unfold contrib.
   rewrite !sgn_abs_mul. lra.
 Qed.
@@ -617,20 +620,20 @@ Hypothesis G : grid_ok c k.
 
 Lemma grid_syn : delay_truthy RN c = true -> (Z.of_nat k < sz_syn RN c)%Z.
 Proof.
-  destruct G as [Hdt [E | (kmax & E & Hk)]]; unfold delay_truthy, sz_syn, delayedby0; rewrite E; [discriminate|].
+  destruct (proj2 G) as [Hdt [E | (kmax & E & Hk)]]; unfold delay_truthy, sz_syn, delayedby0; rewrite E; [discriminate|].
   intros _. rewrite recsz_grid by exact Hdt. lia.
 Qed.
 Lemma grid_pre : del_fwd RN c = true -> (Z.of_nat k < sz_tr_pre RN c)%Z /\ (Z.of_nat k < sz_spike_pre RN c)%Z.
 Proof.
   intros Ef. destruct (del_fwd_true c Ef) as [Er Et]. unfold sz_tr_pre, sz_spike_pre. rewrite Er.
-  destruct G as [Hdt [E | (kmax & E & Hk)]]; unfold delay_truthy, delayedby0 in *; rewrite E in *; [discriminate|].
+  destruct (proj2 G) as [Hdt [E | (kmax & E & Hk)]]; unfold delay_truthy, delayedby0 in *; rewrite E in *; [discriminate|].
   rewrite recsz_grid by exact Hdt. lia.
 Qed.
 Lemma grid_pre_slow :
   (del_fwd RN c = true -> (Z.of_nat (k + 1) < sz_tr_pre_slow RN c)%Z) /\ (1 < sz_tr_pre_slow RN c)%Z
   /\ (1 < sz_tr_post_slow RN c)%Z.
 Proof.
-  destruct G as [Hdt HG]. unfold sz_tr_post_slow, two_dt. rn_simpl. rewrite recsz_two by exact Hdt.
+  destruct (proj2 G) as [Hdt HG]. unfold sz_tr_post_slow, two_dt. rn_simpl. rewrite recsz_two by exact Hdt.
   split; [|split; [|lia]].
   - intros Ef. destruct (del_fwd_true c Ef) as [Er Et]. unfold sz_tr_pre_slow. rewrite Er.
     destruct HG as [E | (kmax & E & Hk)]; unfold delay_truthy, delayedby0 in *; rewrite E in *; [discriminate|].
@@ -644,7 +647,7 @@ Qed.
 (* the delay the reducers see: k steps on a connection with delays, none otherwise *)
 Lemma keff_grid : keff c k = if has_delay RN c then k else O.
 Proof.
-  unfold keff, delay_truthy, has_delay. destruct G as [Hdt [E | (kmax & E & Hk)]]; rewrite E; [reflexivity|].
+  unfold keff, delay_truthy, has_delay. destruct (proj2 G) as [Hdt [E | (kmax & E & Hk)]]; rewrite E; [reflexivity|].
   rn_simpl. destruct (Reqb'_spec (INR kmax * c_dt RN c) 0) as [H|H]; cbn [negb]; [|reflexivity].
   assert (Hz : INR kmax = INR 0) by (cbn; nra). apply INR_eq in Hz. subst kmax. lia.
 Qed.
@@ -659,7 +662,7 @@ Theorem stdp_pairsum c k h :
     + c_lr_pre RN c * pairsum (c_mode RN c) (c_dt RN c) (c_tc_post RN c) (fun _ => 1) (pre_train c k h) (post_train h).
 Proof.
   intros Ht G. unfold weight_change. rewrite weight_change_sum, run_single.
-  rewrite (stdp_steps c k (grid_syn c k G) (grid_pre c k G) h Ht), (contrib_pairsum c k h).
+  rewrite (stdp_steps c k (grid_syn c k G) (grid_pre c k G) (proj1 G) h Ht), (contrib_pairsum c k h).
   unfold Ptr, Qtr, pre_train, post_train. rewrite (keff_grid c k G). reflexivity.
 Qed.
 
@@ -769,7 +772,7 @@ Proof.
   2:{ intros t Hlt. rewrite map_app. cbn [map]. rewrite contrib_prefix by (rewrite map_length; exact Hlt).
       unfold sigw. rewrite map_app, app_nth1 by (rewrite map_length; exact Hlt). reflexivity. }
   rewrite net_forward_scalar.
-  pose proof (partials_stdp c k (grid_syn c k G) (grid_pre c k G) (map fst hx) (fst x) (or_intror (or_introl Ht))) as Hp.
+  pose proof (partials_stdp c k (grid_syn c k G) (grid_pre c k G) (proj1 G) (map fst hx) (fst x) (or_intror (or_introl Ht))) as Hp.
   cbv zeta in Hp. rewrite Hp. cbn [fst snd].
   assert (Ew : sigw (hx ++ [x]) (length hx) = fst (snd x) * Rabs (snd (snd x))).
   { unfold sigw. rewrite map_app. cbn [map]. replace (length hx) with (length (map snd hx)) by apply map_length.
@@ -1013,9 +1016,9 @@ Proof.
   destruct Ht as [E | E]; rewrite E; cbv zeta;
   rewrite st_tr_pre, st_tr_post, st_spike_pre, st_spike_post by exact Hsyn;
   rewrite (st_tr_pre_slow c k Hsyn _ tri), (st_tr_post_slow c k _ tri);
-  rewrite (read_trace c k) by (intros E'; apply Hp; exact E');
+  rewrite (read_trace c k (proj1 G)) by (intros E'; apply Hp; exact E');
   rewrite (read_spike c k) by (intros E'; apply Hp; exact E');
-  rewrite (read_slow c k) by assumption;
+  rewrite (read_slow c k (proj1 G)) by assumption;
   rewrite (rd_small _ _ _ 1) by assumption; rewrite nth_tvals;
   rewrite !map_rev;
   change (hd (zero RN) (tvals (mo c) (d_post c) (amp_post RN c) (rev (map snd h))))
@@ -1483,7 +1486,7 @@ Lemma partials_abs_form h0 pq : exists u v,
   partials RN c k (state_of c k (rev (h0 ++ [pq]))) = (Rabs (c_lr_post RN c) * u, Rabs (c_lr_pre RN c) * v).
 Proof.
   destruct Ht as [E | E].
-  - pose proof (partials_stdp c k (grid_syn c k G) (grid_pre c k G) h0 pq (or_intror (or_introl E))) as Hp.
+  - pose proof (partials_stdp c k (grid_syn c k G) (grid_pre c k G) (proj1 G) h0 pq (or_intror (or_introl E))) as Hp.
     cbv zeta in Hp. rewrite Hp. eexists. eexists. f_equal; rewrite <- Rmult_assoc, (Rmult_comm (b2r _)), Rmult_assoc; reflexivity.
   - destruct (elig_state c k G E h0 pq) as [E1 E2]. cbv zeta in E1, E2.
     unfold partials. rewrite E. rn_simpl. rewrite E1, E2. eexists. eexists. reflexivity.
